@@ -1,18 +1,32 @@
-import FstVerif.Model.Reader
+import FstVerif.Proofs.Open
 /-
-C20 — opening untrusted bytes. (The totality theorems `C20_open_total`,
-`C20_verify_total` are in Proofs/Open.lean once delivered; the "no unsafe"
-clause is a compiler audit run by ./check, not a theorem.)
+C20 — opening and verifying untrusted bytes is total. Statements only; proofs
+in Proofs/Open.lean. The "no unsafe" clause is a compiler audit run by ./check
+(`-F unsafe_code` + lexical scan), not a theorem.
 -/
-namespace Fst
+namespace Fst.Props
+open Fst Fst.OpenProofs
 
-theorem C20_short_is_error (d : Src) (h : d.size < 32) : fstNew d = .err (.format d.size) := by
-  simp [fstNew, h]
+/-- for EVERY byte string, `Fst::new` returns Ok or Err: no slice it takes is out of bounds -/
+theorem C20_open_total (bs : List UInt8) : ∀ tag, fstNew (Src.ofList bs) ≠ .panic tag :=
+  OpenProofs.C20_open_total bs
 
-/-- verify never reports success without a stored checksum -/
-theorem C20_verify_needs_checksum (m : Meta) (d : Src) (h : fstVerify m d = .ok ()) : m.checksum.isSome := by
-  cases hc : m.checksum with
-  | none => simp [fstVerify, hc] at h
-  | some c => rfl
+/-- on anything that opens, `verify()` returns without panicking -/
+theorem C20_verify_total (bs : List UInt8) (m : Meta) (hm : fstNew (Src.ofList bs) = .ok m) :
+    ∀ tag, fstVerify m (Src.ofList bs) ≠ .panic tag := OpenProofs.C20_verify_total bs m hm
 
-end Fst
+/-- what `verify()` computes: the masked CRC-32C of everything but the last four bytes -/
+theorem C20_verify_outcome (bs : List UInt8) (m : Meta) (hm : fstNew (Src.ofList bs) = .ok m) :
+    fstVerify m (Src.ofList bs) =
+      match m.checksum with
+      | none => .err .checksumMissing
+      | some expected =>
+        let got := (maskedSum (crc32cSlice16 0 (bs.take (bs.length - 4)))).toNat
+        if expected = got then .ok () else .err (.checksumMismatch expected got) :=
+  OpenProofs.verify_eq bs m hm
+
+/-- the metadata accessors are field reads of the `Meta` record returned by a successful open: total -/
+theorem C20_short_is_error (bs : List UInt8) (h : bs.length < 32) :
+    fstNew (Src.ofList bs) = .err (.format bs.length) := OpenProofs.C10_short bs h
+
+end Fst.Props
